@@ -94,8 +94,13 @@ def eval_composeinfo(case):
     old = ComposeInfo()
     try:
         old.loads(json.dumps(doc))
-    except Exception:
-        return ["rejected"] if case.get("probe") else []     # not accepted in this version: outside the claim
+    except Exception as exc:
+        if case.get("probe"):
+            return ["rejected"]
+        # the prefix-derived reader of pre-1.0 files cannot express three levels: such documents are not accepted and
+        # are outside the claim; every other down-converted document must be accepted
+        deep = ver < 100 and any(len(n["path"]) > 2 for n in obj["nodes"])
+        return [] if deep else ["%s: document of a supported older version rejected: %s: %s" % (what, type(exc).__name__, exc)]
     if case.get("probe"):
         return ["accepted"]
     fails = ["%s: %s" % (what, f) for f in ci_adapter.check_reread(obj, conc, exp, old)]
@@ -142,8 +147,8 @@ def eval_images(case):
     old = Images()
     try:
         old.loads(json.dumps(doc))
-    except Exception:
-        return ["rejected"] if case.get("probe") else []
+    except Exception as exc:
+        return ["rejected"] if case.get("probe") else ["%s: document of a supported older version rejected: %s: %s" % (what, type(exc).__name__, exc)]
     if case.get("probe"):
         return ["accepted"]
     fails = []
@@ -214,8 +219,8 @@ def eval_rpms(case):
     old = Rpms()
     try:
         old.loads(json.dumps(doc))
-    except Exception:
-        return ["rejected"] if case.get("probe") else []
+    except Exception as exc:
+        return ["rejected"] if case.get("probe") else ["%s: document of a supported older version rejected: %s: %s" % (what, type(exc).__name__, exc)]
     if case.get("probe"):
         return ["accepted"]
     fails = []
@@ -265,8 +270,8 @@ def eval_treeinfo(case):
     old = TreeInfo()
     try:
         old.loads(ini.text())
-    except Exception:
-        return ["rejected"] if case.get("probe") else []
+    except Exception as exc:
+        return ["rejected"] if case.get("probe") else ["%s: document of a supported older version rejected: %s: %s" % (what, type(exc).__name__, exc)]
     if case.get("probe"):
         return ["accepted"]
     fails = []
@@ -389,7 +394,7 @@ def run(ctx):
     # images (non-unified images only: unified did not exist before 1.2)
     cases = []
     for i, c in enumerate(c02.gen(ctx, 2, 2)):
-        if any(c["pool"][n]["unified"] for cell in c["obj"] for n in cell["imgs"]):
+        if any(c["pool"][n]["unified"] or n in ("p7", "p8") for cell in c["obj"] for n in cell["imgs"]):
             continue
         for ver in (100, 101):
             cases.append({"obj": c["obj"], "pool": c["pool"], "ver": ver, "steps": rec[("images", ver)], "rot": (i + ctx.seed) % 132})
@@ -407,6 +412,12 @@ def run(ctx):
             if ver == 3 and not consistent(c["rpms"]):
                 continue
             cases.append({"rpms": c["rpms"], "ver": ver, "steps": rec[("rpms", ver)], "rot": c["rot"]})
+    # 0.3 documents enumerated by RpmsManifest.tla itself (src tables next to one or two binary arches, orphans): the model's
+    # Load03 result is the expected mapping
+    l03 = [c for c in c12.rpms_cases(ctx, "C10") if c["hist"] and c["hist"][0]["op"] == "load03" and len(c["hist"]) == 1]
+    for c in l03:
+        c["focus"] = "C10"
+    ctx.evaluate(rpms_adapter.replay, l03, label="rpms-history", chunk=100, key=lambda c: core._digest([c["hist"], c["rot"]]))
     probe(ctx, eval_rpms, cases, "rpms")
     ctx.evaluate(eval_rpms, cases, label="rpms-upgrade", chunk=200, key=lambda c: core._digest([c["rpms"], c["ver"], c["rot"]]))
     # treeinfo
@@ -431,5 +442,7 @@ def run(ctx):
 
 def replay(info):
     k = info["kind"]
+    if k == "rpms-history":
+        return rpms_adapter.replay(info["case"])
     return {"composeinfo-upgrade": eval_composeinfo, "images-upgrade": eval_images, "rpms-upgrade": eval_rpms,
             "treeinfo-upgrade": eval_treeinfo, "fixture": eval_fixture}[k](info["case"])
